@@ -58,7 +58,24 @@ func randReqKind(rng *rand.Rand, r *Req, drainMs int) {
 	case x < 9:
 		r.Kind = "forever"
 	default:
-		r.Kind = "upgrade"
+		if rng.Intn(3) == 0 {
+			r.Kind = "slowupgrade"
+			r.HoldMs = offGrid(rng, 20, drainMs+300)
+		} else {
+			r.Kind = "upgrade"
+		}
+	}
+}
+
+func pickSched(rng *rand.Rand, p *Plan) {
+	switch rng.Intn(4) {
+	case 0:
+		p.Sched = "random"
+	case 1:
+		p.Sched = "pct"
+		p.Depth = 1 + rng.Intn(4)
+	default:
+		p.Sched = "freeze"
 	}
 }
 
@@ -68,12 +85,7 @@ func GenDeploy(seed int64, idx int, tier string) *Plan {
 	rng := rand.New(rand.NewSource(seed*1000003 + int64(idx)))
 	p := &Plan{Family: "deploy", Seed: seed*1000003 + int64(idx), Targets: map[string]TargetScript{}, QuantumMs: 100, SettleMs: 9000}
 	p.Urgent = rng.Intn(3) > 0
-	if rng.Intn(2) == 0 {
-		p.Sched = "pct"
-		p.Depth = 1 + rng.Intn(4)
-	} else {
-		p.Sched = "random"
-	}
+	pickSched(rng, p)
 	nDeploys := 2 + rng.Intn(2)
 	if tier == "thorough" {
 		nDeploys = 2 + rng.Intn(3)
@@ -84,7 +96,7 @@ func GenDeploy(seed int64, idx int, tier string) *Plan {
 	mode := rng.Intn(4) // 0: all healthy (C02 focus); 1-3: mixed
 	for d := 0; d < nDeploys; d++ {
 		c := Cmd{ID: fmt.Sprintf("c%d", d+1), Kind: "deploy", Svc: "A", Hosts: []string{"a.test"},
-			DeployTimeoutMs: []int{1500, 2500, 3500}[rng.Intn(3)], DrainTimeoutMs: []int{500, 1000, 2000}[rng.Intn(3)]}
+			DeployTimeoutMs: []int{1000, 1500, 2500, 3500}[rng.Intn(4)], DrainTimeoutMs: []int{500, 1000, 2000, 3000}[rng.Intn(4)]}
 		drain = c.DrainTimeoutMs
 		n := 1 + rng.Intn(3)
 		for i := 0; i < n; i++ {
